@@ -78,11 +78,16 @@ void CRC_FN(lemma_lin2)(uint32_t u, uint32_t v)
 
 /*
  * LEMMA E: one slice-by-8 step over the generated tables equals eight byte steps of the bitwise definition, for
- * every state and every eight message bytes.  Proved by the units crc/crc32c_lemma_e_* resp. crc/crc32be_lemma_e_*
- * (see proofs/crc/lemma_e.c for the proof script and its chaining).
+ * every state and every eight message bytes.  Stated as a value-returning lemma function: the value it returns IS
+ * the bitwise definition's state after the eight bytes (first clause), and it equals the table formula (second
+ * clause).  A ghost fold that advances by this function therefore follows the bitwise definition, and a loop
+ * invariant "code state == ghost fold" can be established from the second clause without ever unfolding the 64 bit
+ * steps.  Proved by the units crc/crc32c_lemma_e_1..5 resp. crc/crc32be_lemma_e_1..5 (proofs/crc/lemma_e.c holds
+ * the proof script and documents its chaining).
  */
-void CRC_FN(lemma_e)(uint32_t m, uint32_t w0, uint32_t w1)
-	ENSURES(CRC_SLICE8(m, w0, w1) == CRC_FN(bytes8)(m, w0, w1))
+uint32_t CRC_FN(lemma_e)(uint32_t m, uint32_t w0, uint32_t w1)
+	ENSURES(RET == CRC_FN(bytes8)(m, w0, w1))
+	ENSURES(RET == CRC_SLICE8(m, w0, w1))
 	ASSIGNS();
 
 #endif
